@@ -80,10 +80,17 @@ def apply_breach(spec, b):
     elif k == 'ident-value':
         ops.append({'t': 'equipment', 'name': 'EQ-IDENT', 'attrs': {'serial_number': {'v': text, 'r': 'kw'}}})
     elif k == 'signed':
-        f = ops[frames[sel % len(frames)]]
+        fi = frames[sel % len(frames)]
+        f = ops[fi]
         refs = [r['$ref'] for r in f['attrs']['channels']['v']]
         j = refs[-1]
         rows = ops[j]['data']['shape'][0]
+        if len(refs) == 1:
+            # the only channel is (or may become) the index channel: do not fight with an index breach on this frame
+            touched = spec.setdefault('_touched', [])
+            if fi in touched:
+                raise IndexError('frame already carries an index breach')
+            touched.append(fi)
         if len(refs) == 1 and 'index_type' in f['attrs']:
             arr = (np.arange(rows) * 2).astype('<i2')
             ops[j]['data'] = model.array_spec_from(arr)
@@ -272,9 +279,6 @@ class C17(Property):
                     cls = 'names' if all(k in NAME_BREACH for k in kinds) else '+'.join(kinds)
                     viol.append(Violation(f"no-warning-outside-mode/{cls}",
                                           f"breaches {kinds} written outside the mode without any WARNING record"))
-                elif len(kinds) >= 2 and len(cap.records) < len([k for k in kinds if k not in NAME_BREACH]):
-                    viol.append(Violation(f"fewer-warnings-than-breach-kinds/{'+'.join(kinds)}",
-                                          f"{len(cap.records)} warnings for breach kinds {kinds}"))
 
         def run_seq(seq, inside, depth):
             for it in seq:
